@@ -26,11 +26,14 @@ THEOREMS = ["Tx3.Json.C16_hex_roundtrip", "Tx3.Json.C16_hexToBytes_plain", "Tx3.
 RULE = (
     "cases = (a) every admissible encoding of a drawn value per type: integers (boundary i128 / u64 / i64 values) as "
     "JSON number, decimal string, 0x-hex of 16 bytes; booleans as literal, 0/1, strings; byte strings as hex, 0x-hex, "
-    "hex and base64 envelopes under each field alias; addresses as bech32 and hex; UTxO references as txid#index; "
+    "hex and base64 envelopes under each field alias; addresses as hex and as bech32 written by the harness's own "
+    "BIP-173 encoder under the prefixes addr / addr_test / stake / stake_test (29- and 57-byte payloads), each with a "
+    "broken-checksum twin that must be rejected; UTxO references as txid#index; "
     "(b) ill-formed values: odd-length hex, double 0x prefix, fractional and out-of-range numbers, wrong JSON kinds, "
     "envelopes with missing/duplicate/unknown fields and unknown encodings, bad references; (c) random JSON against a "
     "random type; (d) resolve requests whose parameters are split between args and env, with undeclared extras, "
-    "overriding duplicates, and corrupted TIR envelopes (bad hex, wrong version, wrong encoding, truncated bytes). "
+    "overriding duplicates, and corrupted TIR envelopes (bad hex, wrong encoding, truncated bytes, retired and unknown "
+    "versions - among them names up to 80 characters and a wide character at every position of a 64-character name). "
     "Non-trivial = every case; distinct = distinct (JSON, type) or request"
 )
 ASSUMPTIONS = ["the HTTP/JSON-RPC server loop around parse_resolve_request is not exercised; serde_json's parser is trusted"]
